@@ -14,6 +14,11 @@ CHECKS = {
   text="Generated-input search over edit histories (node insertions of every kind, edge insert/remove by kind or all, node removal, file-version bumps, verbatim repeats) on the real SymbolGraph; after every step every public view (Exists/Get/GetEdges/duality/Children/Parents/Descendants/FindByKind) is compared with a plain reference model that implements the documented removal cascade as a fixpoint. Sampling of an unbounded history space.",
   note="Trusts: rapid; the reference model in props/unit/c17_test.go (edges on base ids; orphan rule as documented in RemoveNode); fabricated AST nodes/file versions stand in for parsed files.",
   ref="6/C17"),
+ "C16": dict(
+  technique="round-trip property testing with rapid: annotation/JSON5 AST -> printer -> go/parser -> NewAnnotationHolder -> compare with AST",
+  text="Generated-input search: comment blocks are drawn as ASTs (annotation name/value/JSON5 property tree/description, free text, near-miss lines, malformed JSON5), printed by an independent JSON5 printer, embedded in a real Go file and parsed back through go/parser, gast.MapDocListToCommentBlock and annotations.NewAnnotationHolder; the AST is the oracle for attributes, order, free text, entity description, error on malformed JSON5 and the value/properties ranges. Sampling.",
+  note="Trusts: rapid, go/parser, the harness's JSON5 printer and number semantics; generator preconditions listed in the evidence assumptions (no blank before the separator comma, near-misses limited to unambiguous non-forms); one known finding (F-C16-1) excluded by construction and replayed as witness.",
+  ref="6/C16"),
 }
 
 NOT_APPLICABLE = []
